@@ -15,6 +15,7 @@
 -/
 import TypelibModel.Lemmas.RoundTrip
 import TypelibModel.Lemmas.LeafRT
+import TypelibModel.Lemmas.EnumRT
 namespace Typelib.C01
 open Typelib
 
@@ -333,13 +334,97 @@ theorem noEnums_laws (env : Env) (today : Int) (h : ∀ c i, memberValue env c i
   { rt := pyLeaves_rt env today
     enumRT := by intro c i w hw; rw [h c i] at hw; cases hw }
 
-/-- **C01 on the unconditional core U₀** (int, bool, float, str under every composite constructor,
-    class flavour, wrapper and recursion; no enum): no hypothesis about CPython is left. -/
+/-- The executable leaves satisfy the leaf laws on U₀ for every environment whose enum classes pass
+    the decidable check `enumWF` (Lemmas/EnumRT.lean): each member's value — bool, int or str — is
+    met first at that member by the lookups of the enum routine. -/
+theorem enumWF_laws (env : Env) (today : Int) (h : enumWF env = true) :
+    LeafLaws S0 env (pyLeaves env today) :=
+  { rt := pyLeaves_rt env today
+    enumRT := pyLeaves_enumRT env today h }
+
+/-- **C01 on the unconditional core U₀** (int, bool, float, str and enums with bool / int / str values
+    under every composite constructor, class flavour, wrapper and recursion): no hypothesis about
+    CPython is left; the side conditions `wfEnv`, `enumWF`, `wfTy` are decidable.
+    Without `enumWF` the statement is false (`roundtrip_false_for_shadowed_member`). -/
 theorem roundtrip_core (env : Env) (today : Int) (hE : wfEnv S0 env = true)
+    (hne : enumWF env = true) (n : Nat) (t : Ty) (v : Val)
+    (hwf : wfTy S0 env t = true) (hty : hasType env n t v = true) :
+    ∃ m, mar env (pyLeaves env today) n t v = .ok m ∧ um env (pyLeaves env today) n t m = .ok v :=
+  roundtrip S0 env (pyLeaves env today) hE (enumWF_laws env today hne) n t v hwf hty
+
+/-- The former statement of `roundtrip_core` (environments without enum members) is a corollary. -/
+theorem roundtrip_core_noEnums (env : Env) (today : Int) (hE : wfEnv S0 env = true)
     (hne : ∀ c i, memberValue env c i = none) (n : Nat) (t : Ty) (v : Val)
     (hwf : wfTy S0 env t = true) (hty : hasType env n t v = true) :
     ∃ m, mar env (pyLeaves env today) n t v = .ok m ∧ um env (pyLeaves env today) n t m = .ok v :=
-  roundtrip S0 env (pyLeaves env today) hE (noEnums_laws env today hne) n t v hwf hty
+  roundtrip_core env today hE (enumWF_of_noEnums env hne) n t v hwf hty
+
+/-! ### Enums: the side condition is forced, and satisfiable
+
+`EnumUnmarshaller` reads text as JSON / a Python literal before the by-value lookup and only then
+falls back on the text itself (`unmarshals/routines.py:589-602`).  A str-valued member whose text
+reads as the value of another member is therefore shadowed by it. -/
+
+/-- `class E(Enum): A = 1; B = "1"`. -/
+def shadowEnv : Env :=
+  [{ flavour := .plain, members := [("A".toList, .int 1), ("B".toList, .str "1".toList)] }]
+
+example : enumWF shadowEnv = false := by decide
+
+/-- `LeafLaws.enumRT` fails for the executable leaves on `shadowEnv`: the value `"1"` of `E.B` is read
+    as the int 1 and finds `E.A` (same on the real library: `unmarshal(E, marshal(E.B))` is `E.A`). -/
+theorem enumRT_false_for_shadowed_member :
+    ¬ (∀ (env : Env) (c i : Nat) (w : Val), memberValue env c i = some w →
+        umEnum env (pyLeaves env) c w = .ok (.member c i) ∧ hashable w = true ∧ decode w ≠ .none) := by
+  intro h
+  have h1 := (h shadowEnv 0 1 (.str ['1']) rfl).1
+  have hu : umEnum shadowEnv (pyLeaves shadowEnv) 0 (.str ['1']) = .ok (.member 0 0) := by rfl
+  rw [hu] at h1
+  simp at h1
+
+/-- … hence the round trip itself fails there: `roundtrip_core` without `enumWF` is false. -/
+theorem roundtrip_false_for_shadowed_member :
+    ¬ (∀ (env : Env) (n : Nat) (t : Ty) (v : Val), wfEnv S0 env = true → wfTy S0 env t = true →
+        hasType env n t v = true →
+        ∃ m, mar env (pyLeaves env) n t v = .ok m ∧ um env (pyLeaves env) n t m = .ok v) := by
+  intro h
+  obtain ⟨m, h1, h2⟩ := h shadowEnv 2 (.enum 0) (.member 0 1) (by decide) (by decide) (by decide)
+  have hm : mar shadowEnv (pyLeaves shadowEnv) 2 (.enum 0) (.member 0 1) = .ok (.str ['1']) := by rfl
+  rw [hm] at h1
+  cases h1
+  have hu : um shadowEnv (pyLeaves shadowEnv) 2 (.enum 0) (.str ['1']) = .ok (.member 0 0) := by rfl
+  rw [hu] at h2
+  simp at h2
+
+/-- `class Color(IntEnum): R = 1; G = 2`; `class Tag(Enum): A = "a"; ONE = "1"; N = "null"`;
+    `@dataclass class Item: color: Color; tag: Optional[Tag]; tags: dict[Tag, int]`. -/
+def exEnumEnv : Env :=
+  [{ flavour := .plain, members := [("R".toList, .int 1), ("G".toList, .int 2)], mixin := .int },
+   { flavour := .plain,
+     members := [("A".toList, .str "a".toList), ("ONE".toList, .str "1".toList), ("N".toList, .str "null".toList)] },
+   { flavour := .dataclass,
+     fields := [("color".toList, .enum 0), ("tag".toList, .union [.enum 1, .none]),
+                ("tags".toList, .dict (.enum 1) (.scalar .int))],
+     required := ["color".toList, "tag".toList, "tags".toList] }]
+
+def exEnumVal : Val :=
+  .inst 2 [("color".toList, .member 0 1), ("tag".toList, .member 1 2),
+           ("tags".toList, .dict [(.member 1 1, .int 7), (.member 1 0, .int 8)])]
+
+example : enumWF exEnumEnv = true := by decide
+example : wfEnv S0 exEnumEnv = true := by decide
+example : wfTy S0 exEnumEnv (.coll .list (.cls 2)) = true := by decide
+example : hasType exEnumEnv 5 (.coll .list (.cls 2)) (.list [exEnumVal]) = true := by decide
+/-- The theorem applies to a dataclass with int- and str-valued enum fields (values `"1"`, `"null"`
+    included, as dict keys and under `Optional`). -/
+example : ∃ m, mar exEnumEnv (pyLeaves exEnumEnv) 5 (.coll .list (.cls 2)) (.list [exEnumVal]) = .ok m
+    ∧ um exEnumEnv (pyLeaves exEnumEnv) 5 (.coll .list (.cls 2)) m = .ok (.list [exEnumVal]) :=
+  roundtrip_core exEnumEnv 0 (by decide) (by decide) 5 _ _ (by decide) (by decide)
+/-- What the model computes for the three str-valued members: text that reads as a number or as
+    null still comes back as the declared member. -/
+example : um exEnumEnv (pyLeaves exEnumEnv) 2 (.enum 1) (.str "1".toList) = .ok (.member 1 1) := by rfl
+example : um exEnumEnv (pyLeaves exEnumEnv) 2 (.enum 1) (.str "null".toList) = .ok (.member 1 2) := by rfl
+example : um exEnumEnv (pyLeaves exEnumEnv) 2 (.enum 1) (.str "a".toList) = .ok (.member 1 0) := by rfl
 
 /-! ### Non-vacuity: a recursive dataclass inside `dict[str, tuple[Node, ...]]` -/
 
@@ -369,7 +454,8 @@ theorem exEnv_noEnums : ∀ c i, memberValue exEnv c i = none := by
   | _ + 1 => rfl
 /-- The theorem applies to the example, and the model really computes the round trip. -/
 example : ∃ m, mar exEnv (pyLeaves exEnv) 12 exTy exVal = .ok m ∧ um exEnv (pyLeaves exEnv) 12 exTy m = .ok exVal :=
-  roundtrip_core exEnv 0 (by decide) exEnv_noEnums 12 exTy exVal (by decide) (by decide)
+  roundtrip_core exEnv 0 (by decide) (enumWF_of_noEnums _ exEnv_noEnums) 12 exTy exVal (by decide) (by decide)
+example : enumWF exEnv = true := by decide
 
 /-! ### Unions with several non-None members
 
